@@ -24,14 +24,14 @@ ExpPair(c) == [same |-> c.a = c.b]
 
 \* ---------------------------------------------------------------- C11
 KeyCases == [prop : {"C11"}, kind : {"key"}, enc : {"proto", "pem", "b58"}, which : {"priv", "pub"},
-             mal : {"none", "priv96ok", "priv96mismatch", "short", "wrongpemtype", "nottext", "wrongkeytype", "truncproto", "empty"}]
-Applicable(c) == /\ (c.mal \in {"priv96ok", "priv96mismatch"} => c.which = "priv" /\ c.enc = "proto")
+             mal : {"none", "priv96ok", "priv96mismatch", "priv96mid", "short", "wrongpemtype", "nottext", "wrongkeytype", "truncproto", "empty"}]
+Applicable(c) == /\ (c.mal \in {"priv96ok", "priv96mismatch", "priv96mid"} => c.which = "priv" /\ c.enc = "proto")
                  /\ (c.mal = "wrongpemtype" => c.enc = "pem")
                  /\ (c.mal = "nottext" => c.enc # "proto")
 ExpKey(c) == [accept |-> c.mal \in {"none", "priv96ok"}]
 
 \* ---------------------------------------------------------------- C15
-HT == {"sha256", "sha1", "blake3", "unknown", "bad99"}
+HT == {"sha256", "sha1", "blake3", "unknown", "bad99", "neg1"}
 Known == {"sha256", "sha1", "blake3"}
 Data == {"d1", "d2"}
 HashCases == [prop : {"C15"}, kind : {"hash"}, ht : HT, of : Data \cup {"none"}, len : {"ok", "short", "long", "empty"}, vdata : Data]
